@@ -2,6 +2,13 @@
 PENDING_REASON = "static rules designed in DESIGN.md §3 but the check is not registered yet (under construction)"
 
 CLAIMS = {
+    "C10": {
+        "technique": "static analysis: interprocedural effect analysis of run_turn restricted to nodes feasible under the dry-run flag, guard facts of commit-side sites, loop-source/sort-key/provenance checks of the commit phase, pairing checks of batch selection, shape check of the back-pressure handler, final-drain must-pass, cross-module arrival-counter obligation, kill-switch sibling check",
+        "text": "Decides: which statements of run_turn (directly or through resolved callees) store into the state object on paths feasible in a dry run - each is a violation because the compute phase is handed a ReadOnlyState; T3, GEL, apply and reflection compute are unreachable in a dry run with T4 on; "
+                "commits iterate _sort_turn_buffers(buffers) with one apply per buffer on the buffer's own deltas and the apply record keyed by the buffer's (turn, slice); batch selection tests the worker limit, picks only disjoint graph sets, updates the used set, and only picked agents are computed on one shared snapshot; "
+                "each captured record is keyed and staged, back-pressure drains, writes and retries the same record exactly once, other errors re-raise, the final drain and disable_staging lie on every normal exit, draining never resets the arrival counter; the commit phase honours the T4 kill switch and the gate-off fallback runs plain turns.",
+        "note": "Not decided: equality of files and state with a sequential run for all batches, payload sizes and byte limits (execution equality); thread behaviour of real compute phases. On today's tree C10.RO reports 4 known findings: the real run_turn writes state on the dry-run path, so the driver raises with the real pipeline (see DESIGN section 4 #17).",
+    },
     "C11": {
         "technique": "static analysis: taint from raw episode storage to ranked lists with the owner filter as sanitiser across four sibling search_tiered implementations (incl. the LanceDB backend that cannot run offline), guard facts and must-pass checks for threshold / k / dedupe, must-pass of the total-key sort before the rerank layers, provenance of every list the rerank layers assign, residual-loop source and cap checks",
         "text": "Decides: every ranked list in InMemoryIndex, its shard view, LanceIndex and its shard view derives only from owner-filtered records and t2_semantic passes owner_for_query(ctx,cfg) (agent -> ctx.agent_id) on every path, including the embed-store reader path; the similarity test dominates every scored append; "
